@@ -5,6 +5,7 @@ import ChythonModel.Proofs.C14Lazy
 import ChythonModel.Proofs.C14Inverse
 import ChythonModel.Proofs.C14Valid
 import ChythonModel.Proofs.C14Neutral
+import ChythonModel.Proofs.C14Idem
 /-!
 # C14 — normalisation conserves composition, is idempotent and numbering independent
 
@@ -306,6 +307,112 @@ example : ∃ o ch, neutralizeExact true
       (3, [(2, { order := 1 }), (4, { order := 1 }), (5, { order := 2 })]), (4, [(3, { order := 1 })]), (5, [(3, { order := 2 })])]⟩
     [1] [4] = some (.exact o ch) ∧ ch = [1, 4] ∧ netCharge o = 0 := ⟨_, _, rfl, rfl, by decide⟩
 
+/-! ## what `neutralize` leaves behind: towards idempotence -/
+
+/-- **`matchFirstAtoms acidStripped` is total and exact**: for every molecule, labels and components it returns a list, and `x`
+    is in it iff `x` is an atom of one of the components that compares equal (`atomOk`) to the acid query atom
+    (`[N;h1,h2,h3,h4;+]`, regenerated). In particular every donor carries `+1`. -/
+theorem neutralize_donors_exact (m : Mol) (L : Labels) (comps : List (List Nat)) :
+    ∃ ds, matchFirstAtoms acidStripped m L comps = some ds ∧
+      (∀ x, x ∈ ds ↔ isDonor m L comps x) ∧ ∀ x ∈ ds, ∃ a, m.atom? x = some a ∧ a.charge = 1 := by
+  obtain ⟨r, hr, hm⟩ := donors_spec m L comps
+  exact ⟨r, hr, hm, fun x hx => donor_charge m L comps x ((hm x).mp hx)⟩
+
+/-- **every acceptor is an anion**: on a well-formed molecule graph (C07's `Graph.WF`) with direction-independent bond tests,
+    every atom `matchFirstAtoms baseStripped` collects is the image of pattern atom 1 in an embedding of one of the six regenerated
+    base patterns (C07's `getMapping_exact`), and pattern atom 1 carries `−1` in all of them -/
+theorem neutralize_acceptors_are_anions (m : Mol) (L : Labels) (comps : List (List Nat)) (as : List Nat)
+    (hwf : (graphOfMol m).WF = true) (hsym : ∀ p ∈ baseStripped, Props.C07.BondSymm (bondOk p m L))
+    (h : matchFirstAtoms baseStripped m L comps = some as) :
+    ∀ x ∈ as, ∃ a, m.atom? x = some a ∧ a.charge = -1 :=
+  acceptors_are_anions m L comps as hwf hsym h
+
+/-- Full statement (FALSE of the code for salts with more donors than acceptors — known finding
+    `C14/neutralize/idempotent/unbalanced`): a second `neutralize()` finds nothing to do, i.e. for every result `o` the
+    checker accepts for `m`, `_neutralize` of `o` yields nothing. -/
+def NeutralizeIdempotent : Prop :=
+  ∀ (m o : Mol) (L : Labels) (comps : List (List Nat)) (ds as changed : List Nat),
+    (graphOfMol m).WF = true → (∀ p ∈ baseStripped, Props.C07.BondSymm (bondOk p m L)) →
+    matchFirstAtoms acidStripped m L comps = some ds → matchFirstAtoms baseStripped m L comps = some as →
+    neutralizeCheck m ds as changed (some o) = true →
+    ∀ r, neutralizeModel true o L comps = some r → r.2.2 = .nothing
+
+/-- **Proved part — once every donor has given its proton no donor is left, so the second call does nothing.** If ALL donors of
+    `m` are deprotonated and any duplicate-free choice `as'` among the acceptors is protonated (the balanced case and the
+    "more acceptors than donors" case of `_neutralize(keep_charge=True)`, for every choice the set order could make), then
+    the stripped acid pattern matches nowhere in the result, and `_neutralize(keep_charge=True)` of the result yields nothing
+    whenever its matcher runs. Excluded: salts with more donors than acceptors, where donors remain and deprotonating an
+    `[NH+]–[O-]` zwitterion can create a new acceptor (Findings / known finding). -/
+theorem neutralize_idempotent_partial (m o : Mol) (L : Labels) (comps : List (List Nat)) (ds as as' : List Nat)
+    (hwf : (graphOfMol m).WF = true) (hsym : ∀ p ∈ baseStripped, Props.C07.BondSymm (bondOk p m L))
+    (hd : matchFirstAtoms acidStripped m L comps = some ds) (ha : matchFirstAtoms baseStripped m L comps = some as)
+    (hsub : ∀ x ∈ as', x ∈ as) (hnd : as'.Nodup) (ho : neutralizeWith m ds as' = some o) :
+    matchFirstAtoms acidStripped o L comps = some [] ∧
+    ∀ r, neutralizeModel true o L comps = some r → r.2.2 = .nothing := by
+  have hacc := acceptors_are_anions m L comps as hwf hsym ha
+  have h0 := no_donor_left m o L comps ds as' hd hnd (fun x hx => hacc x (hsub x hx)) ho
+  refine ⟨h0, ?_⟩
+  intro r hr
+  unfold neutralizeModel at hr
+  rw [h0] at hr
+  simp only [bind, Option.bind] at hr
+  split at hr
+  · simp at hr
+  · rename_i as2 _
+    simp [neutralizeExact, pure] at hr
+    rw [← hr]
+
+/-- the balanced case as the driver runs it: an `exact` result of `neutralizeModel true` is never changed by a second call -/
+theorem neutralize_exact_idempotent (m o : Mol) (L : Labels) (comps : List (List Nat)) (ds as ch : List Nat)
+    (hwf : (graphOfMol m).WF = true) (hsym : ∀ p ∈ baseStripped, Props.C07.BondSymm (bondOk p m L))
+    (h : neutralizeModel true m L comps = some (ds, as, .exact o ch)) :
+    ∀ r, neutralizeModel true o L comps = some r → r.2.2 = .nothing := by
+  unfold neutralizeModel at h
+  cases hd : matchFirstAtoms acidStripped m L comps with
+  | none => simp [hd, bind] at h
+  | some ds0 =>
+    cases ha : matchFirstAtoms baseStripped m L comps with
+    | none => simp [hd, ha, bind] at h
+    | some as0 =>
+      simp only [hd, ha, bind, Option.bind, pure] at h
+      cases he : neutralizeExact true m ds0 as0 with
+      | none => simp [he] at h
+      | some out =>
+        simp only [he, Option.some.injEq, Prod.mk.injEq] at h
+        obtain ⟨rfl, rfl, rfl⟩ := h
+        have hw : neutralizeWith m ds0 as0 = some o := by
+          unfold neutralizeExact at he
+          split at he
+          · split at he
+            · simp at he
+            · split at he
+              · obtain ⟨o', hw, he'⟩ := Option.map_eq_some_iff.mp he
+                simp only [NeutOut.exact.injEq] at he'
+                rw [← he'.1]; exact hw
+              · simp at he
+          · rename_i hc; exact absurd rfl hc
+        exact (neutralize_idempotent_partial m o L comps ds0 as0 as0 hwf hsym hd ha (fun _ hx => hx)
+          (matchFirstAtoms_nodup baseStripped m L comps as0 ha) hw).2
+
+/-- ammonium chloride `[NH4+].[Cl-]` as the driver sees it: molecule, cached labels, components -/
+def nh4cl : Mol := ⟨[(1, { z := 7, charge := 1, implH := some 4 }), (2, { z := 17, charge := -1, implH := some 0 })], [(1, []), (2, [])]⟩
+def nh4clLabels : Labels := ⟨[(1, ⟨0, 1, 0, []⟩), (2, ⟨0, 1, 0, []⟩)], []⟩
+
+/-- the hypotheses of `neutralize_exact_idempotent` / `neutralize_idempotent_partial` are satisfiable by a salt with something
+    to do: `[NH4+].[Cl-]` (donor 1, acceptor 2) is neutralised to `N.Cl` by the model the driver runs -/
+example : (graphOfMol nh4cl).WF = true ∧ (∀ p ∈ baseStripped, Props.C07.BondSymm (bondOk p nh4cl nh4clLabels)) ∧
+    ∃ o, neutralizeModel true nh4cl nh4clLabels [[1], [2]] = some ([1], [2], .exact o [1, 2]) ∧ netCharge o = 0 ∧
+      (o.atom? 1).map (·.charge) = some 0 := by
+  refine ⟨by decide, ?_,
+    ⟨[(1, { z := 7, charge := 0, implH := some 3 }), (2, { z := 17, charge := 0, implH := some 1 })], [(1, []), (2, [])]⟩,
+    by decide +kernel, by decide +kernel, by decide +kernel⟩
+  intro p _ u v x y
+  have hb : ∀ a b, nh4cl.bond? a b = none := by
+    intro a b
+    simp only [Mol.bond?, Mol.nbrs, nh4cl, List.lookup]
+    split <;> (try split) <;> simp
+  simp [bondOk, hb]
+
 /-! ## `standardize_charges` (`standardizeCharges`: what the driver's `CHG` request runs) -/
 
 /-- **`standardize_charges` writes nothing but formal charges**: for every molecule, labels, components, rings and Morgan ranks,
@@ -333,44 +440,8 @@ theorem standardize_charges_keeps_composition (m : Mol) (L : Labels) (comps sssr
     of the live molecule (`atomOk` = `QueryElement.__eq__`, C08's model), `x` carries exactly the pattern charge -/
 theorem live_match_has_pattern_charge (p : Pattern) (m : Mol) (L : Labels) (u x : Nat) (q : Query.QAtom)
     (hq : p.atoms.lookup u = some q) (hk : q.kind ≠ .metal) (h : atomOk p m L u x = true) :
-    ∃ a, m.atom? x = some a ∧ a.charge = q.charge := by
-  unfold atomOk at h
-  rw [hq] at h
-  cases hl : liveAtom m L x with
-  | none => simp [hl] at h
-  | some ma =>
-    simp only [hl] at h
-    unfold liveAtom at hl
-    cases ha : m.atom? x with
-    | none => simp [ha, bind] at hl
-    | some a =>
-      cases hlab : L.atoms.lookup x with
-      | none => simp [ha, hlab, bind] at hl
-      | some l =>
-        simp only [ha, hlab, bind, Option.bind, pure, Option.some.injEq] at hl
-        subst hl
-        refine ⟨a, rfl, ?_⟩
-        have tail : ∀ iso, Query.extendedTail q iso
-            { z := a.z, isotope := a.isotope, charge := a.charge, radical := a.radical, neighbors := l.neighbors,
-              hybridization := l.hybridization, ringSizes := l.ringSizes, implH := a.implH, heteroatoms := l.heteroatoms } = true →
-            a.charge = q.charge := by
-          intro iso ht
-          unfold Query.extendedTail at ht
-          split at ht
-          · simp at ht
-          · rename_i hne
-            simp only [bne_iff_ne, ne_eq, Decidable.not_not] at hne
-            exact hne.symm
-        unfold Query.pyEq at h
-        split at h
-        · split at h
-          · simp at h
-          · exact tail _ h
-        · exact tail _ h
-        · split at h
-          · simp at h
-          · exact tail _ h
-        · rename_i hm; exact absurd hm hk
+    ∃ a, m.atom? x = some a ∧ a.charge = q.charge :=
+  atomOk_pins_charge p m L u x q hq hk h
 
 /-- no pattern of the charge-position tables contains a metal atom (so every atom of a match is charge-tested) -/
 theorem charge_rules_have_no_metal_atoms :
